@@ -369,7 +369,7 @@ def _fit_native_search(self, ob, r):
     # the rare histories (a predictor discovered by the gap evaluation before it is selected, non-monotone gaps) need the EG iterate to be returned,
     # i.e. run_linprog_step=False
     cases = zero_nu + [c for c in cases if c[8]][:60] + [c for c in cases if not c[8]][:550]
-    known = {"C08:fit:raises:zero-signed-weights-nan"}
+    known = set()
     workers = int(os.environ.get("VF_WORKERS", "0") or 0) or min(16, os.cpu_count() or 4)
     with mp.get_context("fork").Pool(workers) as pool:
         for res in pool.imap(_native_case, cases, chunksize=8):
